@@ -130,7 +130,6 @@ where
     /*@*/         op_tag(ops@[pointer as int]) == tag0, tag0 == DiffTag::Insert || tag0 == DiffTag::Delete,
     /*@*/         inv_pre(old, new, ops@, bw), inv_post(old, new, ops0, ops@),
     /*@*/         inv_exact(old, new, ops0, ops@),   // [C11]
-    /*@*/
     /*@*/     decreases pointer, (if pointer > 0 { olen(ops@[pointer - 1]) } else { 0 }),
     {
         let prev_op = *prev_op__r;
@@ -276,7 +275,6 @@ where
     /*@*/         op_tag(ops@[pointer as int]) == tag0, tag0 == DiffTag::Insert || tag0 == DiffTag::Delete,
     /*@*/         inv_pre(old, new, ops@, bw), inv_post(old, new, ops0, ops@),
     /*@*/         inv_exact(old, new, ops0, ops@),   // [C11]
-    /*@*/
     /*@*/     decreases ops@.len() - pointer, (if pointer + 1 < ops@.len() { olen(ops@[pointer + 1]) } else { 0 }),
     {
         let next_op = *next_op__r;
